@@ -2239,3 +2239,59 @@ def eval_submit_ids(ctx):
         except (Raised, Unsupported) as exc:
             out[cname] = (f"<{type(exc).__name__}: {exc}>", m)
     return out
+
+
+def cached_fs_witness(ctx):
+    """CachedFilesystem evaluated: one stat per path and instance, existence and st_mtime of the file a path denotes, missing files."""
+    idx = ctx.index
+    ci = idx.cls("gwf.core:CachedFilesystem")
+    diffs, n = [], 0
+    stats = []
+
+    def h_stat(path, *a, **k):
+        stats.append(("stat", str(path), dict(k)))
+        if str(path) == "/missing":
+            raise Raised("FileNotFoundError", str(path))
+        return Obj("stat_result", st_mtime=111.5, st_ctime=999.0, st_atime=5.0, st_size=3)
+
+    hooks = {"os.stat": h_stat, "os.lstat": lambda p, *a, **k: (stats.append(("lstat", str(p), {})), h_stat(p))[1],
+             "os.path.exists": lambda p: (stats.append(("stat", str(p), {})), str(p) != "/missing")[1],
+             "os.path.getmtime": lambda p: (stats.append(("stat", str(p), {})), h_stat(p).st_mtime)[1]}
+    interp = PureInterp(ctx, hooks=hooks)
+
+    def new_fs():
+        return interp.apply(ci, [], {}, 0)
+
+    try:
+        fs = new_fs()
+        m_exists, m_changed = idx.method(ci, "exists"), idx.method(ci, "changed_at")
+        got = [interp.call(m_exists, ("/a",), {}, self_obj=fs), interp.call(m_changed, ("/a",), {}, self_obj=fs), interp.call(m_exists, ("/a",), {}, self_obj=fs),
+               interp.call(m_exists, ("/missing",), {}, self_obj=fs), interp.call(m_exists, ("/missing",), {}, self_obj=fs)]
+        n += 1
+        if got != [True, 111.5, True, False, False]:
+            diffs.append(f"CachedFilesystem answers exists('/a'), changed_at('/a'), exists('/a'), exists('/missing') x2 with {got}; expected [True, <st_mtime>, True, False, False]")
+        per_path = {}
+        for k_, p_, kw in stats:
+            per_path[p_] = per_path.get(p_, 0) + 1
+            if k_ == "lstat" or kw.get("follow_symlinks") is False:
+                diffs.append("the snapshot stats the link itself (lstat / follow_symlinks=False), not the file a path denotes")
+        if any(v != 1 for v in per_path.values()):
+            diffs.append(f"files are stat'ed {per_path} times within one snapshot: existence and modification time of one file may come from different moments")
+        try:
+            v = interp.call(m_changed, ("/missing",), {}, self_obj=fs)
+            diffs.append(f"changed_at of a missing file returns {v!r} instead of raising FileNotFoundError")
+        except Raised as exc:
+            if exc.kind != "FileNotFoundError":
+                diffs.append(f"changed_at of a missing file raises {exc.kind}, expected FileNotFoundError")
+        n += 1
+        before = len(stats)
+        fs2 = new_fs()
+        interp.call(m_exists, ("/a",), {}, self_obj=fs2)
+        n += 1
+        if len(stats) == before:
+            diffs.append("a second CachedFilesystem answers from the first one's snapshot (shared cache): a later build in the same process sees a stale disk")
+    except Raised as exc:
+        diffs.append(f"CachedFilesystem fails with {exc.kind}: {exc.detail[:60]}")
+    except Unsupported as exc:
+        return n, diffs, f"Unsupported: {exc}"
+    return n, diffs, None
